@@ -48,6 +48,8 @@ def race_part(chk, pr, only=None):
             cases += [(f, c) for c in load_race_cases(f)]
         for i, d in enumerate([0, -100, 1, 250, 250000]):
             cases.append((None, ["case g%d race" % i, "R loop %d" % d, "R benign %d" % d, "R forced %d" % d, "R forced 1000000 0", "end"]))
+        for i, d in enumerate([300000, 1, 2500]):
+            cases.append((None, ["case o%d race" % i, "R overlap %d" % d, "R overlap %d" % (d + 7), "end"]))
     env = {"ASAN_OPTIONS": "detect_leaks=0:abort_on_error=0", "UBSAN_OPTIONS": "print_stacktrace=1"}
     uaf_seen, other_bad, clean_forced = None, [], 0
     witness_runs, witness_clean = 0, 0
@@ -68,7 +70,11 @@ def race_part(chk, pr, only=None):
             mm = OKLINE.match(l)
             if mm:
                 if mm.group(3) != "1":
-                    other_bad.append((src, lines, "returned TimerId carries a wrong sequence number: " + l))
+                    other_bad.append((src, lines, "the TimerId returned by the add does not carry the sequence number of the Timer it points to "
+                                                  "(another Timer was constructed while the add was in flight): " + l))
+                if mm.group(1) == "overlap" and mm.group(2) != "0":
+                    other_bad.append((src, lines, "cancel(id) processed by the loop did not stop the timer the id was returned for (it ran %s time(s)): %s"
+                                      % (mm.group(2), l)))
                 if mm.group(1) == "forced":
                     clean_forced += 1
             elif l and not l.startswith(("case", "end")):
@@ -79,8 +85,9 @@ def race_part(chk, pr, only=None):
     chk.add_obligation("add-vs-fire race: real code under the forced schedule agrees with C07_current_tree for the generated read order "
                        "(after hand-off => use-after-free reproduced; before => every forced run clean)", agree)
     if not only:
-        chk.add_obligation("F-7 witness corpus/C07/race_addtimer_uaf.case (forced add-vs-fire schedule, ASan): completes cleanly with a valid id "
-                           "on the current tree (fixed by a82dacb; a regression is reported as VIOLATION)", witness_runs > 0 and witness_clean == witness_runs)
+        chk.add_obligation("race witnesses corpus/C07/race*.case (F-7: forced add-vs-fire schedule, fixed by a82dacb; overlap: another Timer "
+                           "constructed while an add is in flight) complete cleanly under ASan with a valid id; a regression is reported as VIOLATION",
+                           witness_runs > 0 and witness_clean == witness_runs)
     chk.cov["race"]["witness_runs"] = witness_runs
     chk.cov["race"]["witness_clean"] = witness_clean
     chk.trusted("harness/C07_race.cc: real EventLoop, foreign std::thread, --wrap=write stalls the foreign thread inside wakeup() while the "
@@ -116,8 +123,12 @@ def run(chk, replay=None):
         pr = chk.prove()
         race_part(chk, pr, only=replay)
     else:
+        def extra(chk, pr):
+            race_part(chk, pr)
+            # free-running programs (real loop / timerfd / clock): processed cancels stop the timer, foreign adds/cancels
+            base.free_part(chk, 320 if chk.tier == "thorough" else 8, variants=("plain", "asan") if chk.tier == "thorough" else ("plain",))
         base.run_common(chk, "C07", base.C07_CLAUSES, ["reuse", "mixed", "reuse"], replay=replay,
-                        extra=None if replay else race_part)
+                        extra=None if replay else extra)
     return chk.finish(level="proof", assumptions=[
         "the allocator may return any non-live address (reuse allowed) but never a live one; Timer::s_numCreated_ does not wrap",
         "foreign-thread calls interact with the loop thread only through the mutex-guarded functor queue (sequentially consistent interleaving of micro-steps, DESIGN 3.2)",
